@@ -149,7 +149,7 @@ func runBlockProc(run *ev.Run, c int) {
 		}
 		// 2. queues against objects, on the committed state
 		ctx := r.Ctx()
-		fam := map[string][]string{"htlc": htlcQueueCheck(r, ctx), "farm": farmQueueCheck(r, ctx), "service": serviceQueueCheck(r, ctx), "random": randomQueueCheck(r, ctx)}
+		fam := map[string][]string{"htlc": htlcQueueCheck(r, ctx), "farm": farmQueueCheck(r, ctx), "service": serviceQueueCheck(r, ctx), "random": randomQueueCheck(r, ctx), "oracle": oracleIndexCheck(r, ctx)}
 		for name, lines := range fam {
 			run.Eval(1)
 			for _, l := range lines {
